@@ -716,6 +716,38 @@ pub fn with_leaves(kind: &Kind, supply: &mut LeafSupply) -> T {
     (kind.build)(children)
 }
 
+/// Every kind with one slot holding a literal leaf (strings that look like identifiers, keywords,
+/// phrases, empty; numbers; booleans; null; an input reference) and identifiers elsewhere.
+pub fn literal_slot(kinds: &[Kind]) -> Vec<T> {
+    let lits = vec![
+        T::Str("apple".into()),
+        T::Str("_k9".into()),
+        T::Str("a b".into()),
+        T::Str("if".into()),
+        T::Str("true".into()),
+        T::Str("".into()),
+        T::Str("9a".into()),
+        T::Str("\u{e9}t\u{e9}".into()),
+        T::Num(1.5),
+        T::Num(0.0),
+        T::Bool(true),
+        T::Null,
+        T::Inp("k".into()),
+    ];
+    let mut out = vec![];
+    for k in kinds {
+        for i in 0..k.slots.len() {
+            for l in &lits {
+                let mut supply = LeafSupply::new();
+                let mut children: Vec<T> = k.slots.iter().map(|_| supply.leaf()).collect();
+                children[i] = l.clone();
+                out.push((k.build)(children));
+            }
+        }
+    }
+    out
+}
+
 fn fits(kind: &Kind, slot: SlotKind) -> bool {
     kind.is_expr || slot == SlotKind::Spreadable
 }
